@@ -67,6 +67,46 @@ theorem errnoOf_neg (e : Nat) (h1 : 1 ≤ e) (h2 : e < 2147483648) : errnoOf (42
 theorem outOfVerdict_ok_iff (v : Option Err) : outOfVerdict v = .ok .none ↔ v = none := by
   cases v <;> simp [outOfVerdict]
 
+/-! ### what `set` sends -/
+
+/-- `set` hands exactly one message to Send, whatever the mode and whatever the kernel answers:
+type AUDIT_SET, flags REQUEST|ACK, the status in wire format -/
+theorem set_sent (s : St) (st : Status) (mode : Nat) :
+    (set s st mode).1.sent = s.sent ++ [⟨AuditSet, NLM_F_REQUEST + NLM_F_ACK, (s.seq + 1) % 4294967296, st.toWire⟩] := by
+  unfold set
+  have hs : (send s AuditSet (NLM_F_REQUEST + NLM_F_ACK) st.toWire).1.sent =
+      s.sent ++ [⟨AuditSet, NLM_F_REQUEST + NLM_F_ACK, (s.seq + 1) % 4294967296, st.toWire⟩] := rfl
+  cases hsend : send s AuditSet (NLM_F_REQUEST + NLM_F_ACK) st.toWire with
+  | mk s1 x =>
+    cases x with
+    | mk q ok =>
+      rw [hsend] at hs
+      simp only at hs
+      cases ok with
+      | false => exact hs
+      | true =>
+        simp only
+        split
+        · exact hs
+        · have hf := getReply_frame q s1
+          cases hg : getReply q s1 with
+          | mk s2 r =>
+            rw [hg] at hf
+            cases r with
+            | error e => exact hf.sent.trans hs
+            | ok ack => simp only; cases checkAck ack <;> exact hf.sent.trans hs
+
+/-- a NoWait request receives nothing -/
+theorem set_nowait_recvs (s : St) (st : Status) : (set s st NoWait).1.recvs = s.recvs := by
+  unfold set
+  cases hs : send s AuditSet (NLM_F_REQUEST + NLM_F_ACK) st.toWire with
+  | mk s1 x =>
+    obtain ⟨q, ok⟩ := x
+    have hr : s1.recvs = s.recvs := congrArg (fun x => x.1.recvs) hs.symm
+    cases ok with
+    | false => exact hr
+    | true => simp only [if_true]; exact hr
+
 /-! ### AuditStatus bytes -/
 
 theorem toWire_length (s : Status) : s.toWire.length = 44 := rfl
